@@ -91,7 +91,7 @@ jobs:
 var regexPool = []string{
 	`undefined`, `^step ID`, `"nope"`, `.`, `zzzz_nomatch`, `is not defined`, `property .* not defined`,
 	`^input `, `shell name`, `duplicate`, `unexpected key`, `(?i)LABEL`, `job "[a-z]+"`, `\$\{\{`, `potentially untrusted`,
-	`^[a-z]`, `at least one`, `"os2?"`, `got unexpected`, `x$|y$`,
+	`^[a-z]`, `ID "a"`, `"os2?"`, `got unexpected`, `x$|y$`,
 }
 
 var globPool = []string{
